@@ -152,12 +152,15 @@ static void observe2(Trace& t, const FSM2::Instance& m) {
 
 }
 
-int main() {
+#include <stdlib.h>
+
+int main(int argc, char** argv) {
+	const unsigned long scenarioSeed = argc > 1 ? strtoul(argv[1], 0, 10) : 0;
 	static_assert(FSM1::stateId<A1>() == 0 && FSM1::stateId<E1>() == 4, "ids follow declaration order");
 	static_assert(FSM2::stateId<X2>() == 0 && FSM2::stateId<Z2>() == 2, "ids follow declaration order");
 
 	Trace trace;
-	Lcg cbRng(12345), drv(777);
+	Lcg cbRng(12345 + scenarioSeed * 7919), drv(777 + scenarioSeed * 104729);
 
 	{
 		Ctx ctx = { &trace, &cbRng, 1 };
